@@ -289,4 +289,28 @@ theorem geometry_layer_translated :
    GeomTie.gen_Circuit_pinYOffset_eq_model, GeomTie.gen_Rectangle_ctor_eq_model,
    GeomTie.gen_Circuit_placement_eq_model, GeomTie.gen_Circuit_area_eq_model⟩
 
+/-- The loops of `Circuit::hpwl()` itself are translated from the source: `Gen.Geom.Circuit_hpwl` (two nested
+`List.foldl`s of named step functions generated from the clang AST of coloquinte.cpp: the `continue` on empty
+nets, the INT_MAX / INT_MIN sentinels read from `std::numeric_limits<int>`, the `std::min/std::max` updates,
+`ret += …`) equals the hand-written `Circuit.hpwl` whenever every pin position is a C++ `int`
+(`GeomTie.PinsInInt`, decidable), in particular on `Checked.HpwlDom` (where `hpwl_no_overflow` shows that the
+C++ arithmetic does not overflow either).  The hypothesis cannot be dropped: over unbounded `Int` a pin beyond
+INT_MAX is clipped by the sentinel (example in `Proofs/GeomTie.lean`). -/
+theorem geometry_loops_translated (c : Circuit) :
+    (GeomTie.PinsInInt c → Gen.Geom.Circuit_hpwl c = c.hpwl) ∧
+    (Checked.HpwlDom c → GeomTie.PinsInInt c) ∧
+    (Checked.HpwlDom c → Gen.Geom.Circuit_hpwl c = c.hpwl) := by
+  have hdom : Checked.HpwlDom c → GeomTie.PinsInInt c := by
+    intro h n hn p hp
+    have hx := (Checked.pinXC_ok c p (h.2 n hn p hp)).2
+    have hy := (Checked.pinYC_ok c p (h.2 n hn p hp)).2
+    omega
+  exact ⟨GeomTie.gen_Circuit_hpwl_eq_model c, hdom, fun h => GeomTie.gen_Circuit_hpwl_eq_model c (hdom h)⟩
+
+-- non-vacuity: a circuit in both domains (an empty net included), and the value the generated loops compute
+example :
+    let c : Circuit := ⟨[⟨4, 2, 0, 0, .N, false, false, .ANY⟩, ⟨3, 2, 10, 5, .W, false, false, .ANY⟩],
+                        [⟨1, 0, [⟨0, 1, 1⟩, ⟨1, 0, 2⟩]⟩, ⟨1, 0, []⟩], []⟩
+    Checked.HpwlDom c ∧ GeomTie.PinsInInt c ∧ Gen.Geom.Circuit_hpwl c = 13 := by decide
+
 end ColoVerif.C09
